@@ -2,19 +2,79 @@ package formatter
 
 import (
 	"bytes"
-	"regexp"
 	"strings"
 
 	"github.com/ysugimoto/falco/v2/ast"
 	"github.com/ysugimoto/falco/v2/config"
 )
 
-var multiLineFeedRegex = regexp.MustCompile(`\n{3,}`)
-var replace = "\n\n"
-
-// Replace over three line-feed characters to two characters
+// Replace over three line-feed characters to two characters.
+// String literals and comments are copied as they are: line feeds inside a long string
+// are part of its value, and the ones inside a block comment are part of the comment.
 func trimMultipleLineFeeds(lines string) string {
-	return multiLineFeedRegex.ReplaceAllString(lines, replace)
+	if !strings.Contains(lines, "\n\n\n") {
+		return lines
+	}
+	var buf strings.Builder
+	for i := 0; i < len(lines); {
+		if end := literalEnd(lines, i); end > i {
+			buf.WriteString(lines[i:end])
+			i = end
+			continue
+		}
+		if lines[i] != '\n' {
+			buf.WriteByte(lines[i])
+			i++
+			continue
+		}
+		j := i
+		for j < len(lines) && lines[j] == '\n' {
+			j++
+		}
+		if j-i >= 3 {
+			buf.WriteString("\n\n")
+		} else {
+			buf.WriteString(lines[i:j])
+		}
+		i = j
+	}
+	return buf.String()
+}
+
+// When a string literal or a comment starts at s[i], return the index just after it, otherwise i
+func literalEnd(s string, i int) int {
+	until := func(from int, closing string) int {
+		if k := strings.Index(s[from:], closing); k >= 0 {
+			return from + k + len(closing)
+		}
+		return len(s)
+	}
+	switch {
+	case s[i] == '"':
+		return until(i+1, `"`)
+	case strings.HasPrefix(s[i:], "/*"):
+		return until(i+2, "*/")
+	case s[i] == '#' || strings.HasPrefix(s[i:], "//"):
+		// line comment ends before the line feed
+		if k := strings.IndexByte(s[i:], '\n'); k >= 0 {
+			return i + k
+		}
+		return len(s)
+	case s[i] == '{':
+		// long string: {"..."} or {delimiter"..."delimiter}
+		j := i + 1
+		for j < len(s) && isLongStringDelimiter(s[j]) {
+			j++
+		}
+		if j < len(s) && s[j] == '"' {
+			return until(j+1, `"`+s[i+1:j]+"}")
+		}
+	}
+	return i
+}
+
+func isLongStringDelimiter(c byte) bool {
+	return c == '_' || (c >= 'a' && c <= 'z') || (c >= 'A' && c <= 'Z') || (c >= '0' && c <= '9')
 }
 
 // Calculate indent strings from configuration
